@@ -84,7 +84,7 @@ func VM(prog *parser.Program, cs *Case, hist bool) (Outcome, error) {
 		Stdin: strings.NewReader(cs.Stdin), Args: cs.Args, Vars: cs.Vars, Argv0: "awk",
 		NoExec: !cs.Shell, ShellCommand: []string{filepath.Join(core.BuildDir, "vsh")},
 	}
-	o := run.Exec(prog, cfg, run.Opts{Hist: hist})
+	o := run.Exec(prog, cfg, run.Opts{Hist: hist, FileOutput: cs.Shell})
 	out := Outcome{Kind: "ok", Status: o.Status, Stdout: o.Stdout, Files: map[string]string{}, Faults: o.Faults, Hist: o.Hist, Steps: o.Steps, Stderr: o.Stderr}
 	out.TimingArtefact = strings.Contains(o.Stderr, "WaitDelay expired")
 	switch {
@@ -106,11 +106,16 @@ func VM(prog *parser.Program, cs *Case, hist bool) (Outcome, error) {
 
 // Ref runs prog on the reference evaluator. ok=false means the case left the modelled fragment.
 func Ref(prog *parser.Program, cs *Case, bumpNR bool) (out Outcome, ok bool, usedPipe bool, res refeval.Result) {
+	return RefVariant(prog, cs, bumpNR, false)
+}
+
+// RefVariant is Ref with the second ambiguity switch (sign of int()'s zero) exposed.
+func RefVariant(prog *parser.Program, cs *Case, bumpNR, intDropsNegZero bool) (out Outcome, ok bool, usedPipe bool, res refeval.Result) {
 	files := map[string][]byte{}
 	for n, c := range cs.Files {
 		files[n] = []byte(c)
 	}
-	cfg := &refeval.Config{Stdin: []byte(cs.Stdin), Args: cs.Args, Vars: cs.Vars, Argv0: "awk", Files: files, PipeGetlineBumpsNR: bumpNR, Fuel: cs.Fuel}
+	cfg := &refeval.Config{Stdin: []byte(cs.Stdin), Args: cs.Args, Vars: cs.Vars, Argv0: "awk", Files: files, PipeGetlineBumpsNR: bumpNR, Fuel: cs.Fuel, IntDropsNegZero: intDropsNegZero}
 	if cs.Shell {
 		cfg.Shell = refeval.VshModel
 	}
@@ -140,8 +145,11 @@ func Agree(prog *parser.Program, cs *Case, vm Outcome) (agree bool, ref Outcome,
 	if ref.Sig() == vm.Sig() {
 		return true, ref, true
 	}
-	if usedPipe {
-		ref2, ok2, _, _ := Ref(prog, cs, true)
+	for _, v := range [][2]bool{{true, false}, {false, true}, {true, true}} {
+		if v[0] && !usedPipe {
+			continue
+		}
+		ref2, ok2, _, _ := RefVariant(prog, cs, v[0], v[1])
 		if ok2 && ref2.Sig() == vm.Sig() {
 			return true, ref2, true
 		}
